@@ -31,6 +31,10 @@ func genC04(r *Rand, tier string, i int) *h.Scenario {
 	if tier == "thorough" {
 		p.MaxBars = 8
 	}
+	if r.Bool(0.015) {
+		// a tall display: more than 99 rows, cursor-up counts of three digits
+		p.MinBars, p.MaxBars, p.PExt, p.PTightTerm, p.PNarrow, p.MaxOps = 34, 44, 0.9, 0, 0, 4
+	}
 	return GenBase(r, &p)
 }
 
